@@ -6,6 +6,8 @@ import (
 	"go/ast"
 	"go/types"
 	"os"
+	"os/exec"
+	"strconv"
 
 	"golang.org/x/tools/go/ssa"
 	"regexp"
@@ -28,6 +30,8 @@ func main() {
 		cmdDump(os.Args[2:])
 	case "cex":
 		cmdCex(os.Args[2:])
+	case "vacuity":
+		cmdVacuity(os.Args[2:])
 	case "check":
 		cmdCheck(os.Args[2:])
 	case "infer":
@@ -370,4 +374,91 @@ func cmdCex(args []string) {
 			}
 		}
 	}
+}
+
+// cmdVacuity lists the basic blocks whose reachability is refuted by the facts of the VC alone (no
+// obligation assumed): dead code under the contracts, or - the reason for this command - facts that
+// contradict each other, which would make every obligation of the block vacuously provable.
+func cmdVacuity(args []string) {
+	fs := flag.NewFlagSet("vacuity", flag.ExitOnError)
+	repo := fs.String("repo", "/repo", "repository")
+	fnre := fs.String("fn", "", "function regexp")
+	fs.Parse(args)
+	e, err := loadEngine(*repo)
+	if err != nil {
+		fmt.Fprintln(os.Stderr, err)
+		os.Exit(2)
+	}
+	var re *regexp.Regexp
+	if *fnre != "" {
+		re = regexp.MustCompile(*fnre)
+	}
+	vcs := generateAll(e)
+	type res struct {
+		fn   string
+		dead []string
+	}
+	out := make([]res, len(vcs))
+	parallelDo(len(vcs), func(i int) {
+		vc := vcs[i]
+		name := e.fname(vc.fn)
+		if re != nil && !re.MatchString(name) {
+			return
+		}
+		var b strings.Builder
+		b.WriteString("(set-option :timeout 1500)\n")
+		var body strings.Builder
+		for _, d := range vc.decls {
+			body.WriteString(d + "\n")
+		}
+		for _, it := range vc.items {
+			if it.probe || it.ob != nil {
+				continue
+			}
+			body.WriteString("(assert " + it.fact + ")\n")
+		}
+		var idx []int
+		for k := range vc.reach {
+			idx = append(idx, k)
+		}
+		sort.Ints(idx)
+		for _, k := range idx {
+			fmt.Fprintf(&body, "(echo \"blk %d\")\n(push 1)\n(assert %s)\n(check-sat)\n(pop 1)\n", k, vc.reach[k])
+		}
+		bs := body.String()
+		b.WriteString(prelude)
+		for _, d := range e.structDeclsFor(bs) {
+			b.WriteString(d + "\n")
+		}
+		b.WriteString(bs)
+		cmd := exec.Command("z3-new", "-in", "-smt2")
+		cmd.Stdin = strings.NewReader(b.String())
+		o, _ := cmd.Output()
+		lines := strings.Split(string(o), "\n")
+		r := res{fn: name}
+		for j := 0; j+1 < len(lines); j++ {
+			if strings.HasPrefix(lines[j], "blk ") && strings.TrimSpace(lines[j+1]) == "unsat" {
+				k, _ := strconv.Atoi(strings.TrimPrefix(lines[j], "blk "))
+				cmt := ""
+				for _, bb := range vc.fn.Blocks {
+					if bb.Index == k {
+						cmt = bb.Comment
+						if p := lastPos(bb); p.IsValid() {
+							cmt += " @" + shortFile(e.fset.Position(p).String())
+						}
+					}
+				}
+				r.dead = append(r.dead, fmt.Sprintf("%d %s", k, cmt))
+			}
+		}
+		out[i] = r
+	})
+	n := 0
+	for _, r := range out {
+		if len(r.dead) > 0 {
+			n += len(r.dead)
+			fmt.Printf("%s: %s\n", r.fn, strings.Join(r.dead, "; "))
+		}
+	}
+	fmt.Printf("%d blocks refuted\n", n)
 }
